@@ -2,14 +2,14 @@
 import itertools
 import numpy as np
 from hypothesis import strategies as st
-from vlib import gen_model, simcase, oracles, replay
+from vlib import gen_model, simcase, oracles, replay, libcase
 from vlib.build import link_key
 from vlib.runner import Violation, Discard
 
 ID = "C03"
 RULE = (
     "three kinds of case: 'grid' = (start, end, dt) triples (Hypothesis draws + an enumerated product of starts x spans x step sizes) checked against the validity predicate "
-    "t_k = start + k*dt (1e-9), strictly increasing, number of steps = the first grid point at or after the end year ((end-start)/dt integer up to 1e-12 => that integer, else ceil); 'model' = generated ModelSpecs (every unit type, timescales != 1, "
+    "t_k = start + k*dt (1e-9), strictly increasing, number of steps = the first grid point at or after the end year ((end-start)/dt integer up to 1e-12 => that integer, else ceil); 'model' = perturbed library projects and generated ModelSpecs (every unit type, timescales != 1, "
     "shared parameters, several parameters per link, timed sources, junctions, transfers) where at EVERY index the recorded value of EVERY link is compared (1e-9 of the source stock) with "
     "an independent one-step replay of the documented conversion rules from atomica's own state and parameter values, and the next state with stock + in - out (per bin for timed "
     "compartments); 'free' = free run of the reference simulator (refsim) from the same inputs, all trajectories rtol 1e-8, mismatches without a one-step mismatch counted as inconclusive; "
@@ -52,7 +52,9 @@ def strategy(tier):
     prof = dict(PROFILE)
     if tier == "thorough":
         prof.update(max_steps=80, max_ord=6, max_pops=4)
-    return st.one_of(grid_cases(), gen_model.model_specs(prof).map(lambda s: {"kind": "model", "spec": s}), gen_model.model_specs(prof).map(lambda s: {"kind": "model", "spec": s}))
+    models = gen_model.model_specs(prof).map(lambda s: {"kind": "model", "spec": s})
+    libs = libcase.lib_cases(20 if tier == "quick" else 80, quick=(tier == "quick")).map(lambda s: {"kind": "model", "spec": s})
+    return st.one_of(grid_cases(), grid_cases(), models, models, models, models, models, libs)
 
 
 def check_grid(case):
@@ -107,11 +109,11 @@ def check_grid(case):
 
 
 def check_model(spec):
-    b, res = simcase.run_spec(spec)
+    b, res = simcase.run_any(spec)
     # the engine must integrate on the grid it reports
     t = np.asarray(res.t, dtype=float)
     dt = float(res.model.dt)
-    s = spec["settings"]
+    s = spec["settings"] if "lib" not in spec else {"start": spec["start"], "dt": spec["dt"]}
     if abs(dt - s["dt"]) > 0 or np.any(np.abs(t - (s["start"] + np.arange(len(t)) * dt)) > 1e-9 * np.maximum(1.0, np.abs(t))):
         raise Violation(ID, "grid/model-time-vector", "model time vector is not start+k*dt: dt=%r spacing=%r points=%d settings=%r" % (dt, (t[-1] - t[0]) / max(1, len(t) - 1), len(t), s))
     rp = replay.Replay(res)
@@ -149,7 +151,7 @@ def check_model(spec):
                     bad = abs(got - pv) > 1e-9 * max(1.0, float(rp.cv[c][ti]), abs(pv))
                 if bad:
                     raise Violation(ID, "state-update/%s" % type(c).__name__, "%s/%s index %d->%d: recorded %r, stock+in-out gives %r" % (c.pop.name, c.name, ti, ti + 1, np.asarray(got).tolist(), np.asarray(pv).tolist()))
-    free_labels, inconclusive = free_run(spec, res, rp)
+    free_labels, inconclusive = free_run(spec, res, rp) if "lib" not in spec else (["free:not-run(library model)"], {})
     base_units = {u.rstrip("*") for u in units}
     nontrivial = len(base_units) >= 3 and any(u.endswith("*") for u in units)
     return {"nontrivial": nontrivial, "labels": ["kind:model"] + simcase.labels_of(spec) + ["unit:" + u for u in sorted(units)] + free_labels, "inconclusive": inconclusive}
